@@ -899,9 +899,11 @@ type cellJob struct {
 	fn      string
 	lean    string
 	classes [][]string
+	stub    string // signature and placeholder body used when the function leaves the accepted subset (keeps the driver building)
 }
 
 var untouchedFacts []string
+var notTranslated = map[string][]string{}
 
 func genCells(jobs []cellJob, ns, imports, outPath string) {
 	var b strings.Builder
@@ -912,9 +914,28 @@ func genCells(jobs []cellJob, ns, imports, outPath string) {
 		if !ok {
 			fatal("function %s.%s not found (renamed or removed): the model cannot be regenerated", j.pkgName, j.fn)
 		}
-		r := translateCells(j.pkg, j.pkgName, fd, j.lean, j.classes, pkgGlobals(j.pkg))
-		b.WriteString(r.text + "\n")
-		untouchedFacts = append(untouchedFacts, fmt.Sprintf("(\"%s.%s\", [%s])", ns, j.lean, quoteAll(r.untouched)))
+		func() {
+			defer func() {
+				if r := recover(); r != nil {
+					if j.stub == "" {
+						panic(r)
+					}
+					// outside the subset: a placeholder with the same signature keeps every *other* definition (and the driver)
+					// building; the name is listed in `notTranslated`, the theorems about this function stop checking, and the
+					// correspondence shows where the real function and the placeholder differ
+					fmt.Fprintf(&b, "-- NOT TRANSLATED: %s (%v)\ndef %s {α : Type} (F : FieldOps α) %s\n\n", j.fn,
+						strings.ReplaceAll(fmt.Sprint(r), "\n", " "), j.lean, j.stub)
+					notTranslated[ns] = append(notTranslated[ns], j.lean)
+				}
+			}()
+			r := translateCells(j.pkg, j.pkgName, fd, j.lean, j.classes, pkgGlobals(j.pkg))
+			b.WriteString(r.text + "\n")
+			untouchedFacts = append(untouchedFacts, fmt.Sprintf("(\"%s.%s\", [%s])", ns, j.lean, quoteAll(r.untouched)))
+		}()
+	}
+	if ns == "Curve" {
+		fmt.Fprintf(&b, "/-- functions that left the translator's subset in this run (each is a placeholder above) -/\ndef notTranslated : List String := [%s]\n\n",
+			quoteAll(notTranslated[ns]))
 	}
 	b.WriteString("end " + ns + "\n")
 	writeIfChanged(outPath, b.String())
@@ -930,43 +951,43 @@ func quoteAll(xs []string) string {
 
 func genCurve(field, scal, root *pkgSrc, out string) {
 	genCells([]cellJob{
-		{field, "field", "Element.Invert", "invert", nil},
-		{field, "field", "Element.expPMin3Div4", "expPMin3Div4", nil},
+		{field, "field", "Element.Invert", "invert", nil, ""},
+		{field, "field", "Element.expPMin3Div4", "expPMin3Div4", nil, ""},
 	}, "FieldChains", "import Secp.FieldOps\nimport Secp.Gen.FiatField", out+"/FieldChains.lean")
 	// SqrtRatio refers to FieldChains.expPMin3Div4, so it lives in a second namespace block of its own file
 	genCells([]cellJob{
-		{field, "field", "Element.SqrtRatio", "sqrtRatio", nil},
+		{field, "field", "Element.SqrtRatio", "sqrtRatio", nil, ""},
 	}, "FieldChains", "import Secp.Gen.FieldChains", out+"/SqrtRatio.lean")
 	genCells([]cellJob{
-		{scal, "scalar", "scalar.Invert", "invert", nil},
+		{scal, "scalar", "scalar.Invert", "invert", nil, ""},
 	}, "ScalarChain", "import Secp.FieldOps", out+"/ScalarChain.lean")
 	genCells([]cellJob{
-		{root, "root", "Element.addProjectiveComplete", "addProjectiveComplete_eu_v", [][]string{{"e", "u"}, {"v"}}},
-		{root, "root", "Element.addProjectiveComplete", "addProjectiveComplete_euv", [][]string{{"e", "u", "v"}}},
-		{root, "root", "Element.doubleProjectiveComplete", "doubleProjectiveComplete_eu", [][]string{{"e", "u"}}},
-		{root, "root", "Element.negate", "negate", nil},
-		{root, "root", "Element.isEqual", "isEqual", nil},
-		{root, "root", "Element.isEqual", "isEqual_same", [][]string{{"e", "u"}}},
-		{root, "root", "Element.affine", "affine", nil},
-		{root, "root", "Secp256Polynomial", "secp256Polynomial", nil},
-		{root, "root", "SSWU", "sswu", nil},
-		{root, "root", "IsogenySecp256k13iso", "isogeny", nil},
+		{root, "root", "Element.addProjectiveComplete", "addProjectiveComplete_eu_v", [][]string{{"e", "u"}, {"v"}}, "(e : Pt α) (v : Pt α) : Pt α := e"},
+		{root, "root", "Element.addProjectiveComplete", "addProjectiveComplete_euv", [][]string{{"e", "u", "v"}}, "(e : Pt α) : Pt α := e"},
+		{root, "root", "Element.doubleProjectiveComplete", "doubleProjectiveComplete_eu", [][]string{{"e", "u"}}, "(e : Pt α) : Pt α := e"},
+		{root, "root", "Element.negate", "negate", nil, "(e : Pt α) : Pt α := e"},
+		{root, "root", "Element.isEqual", "isEqual", nil, "(e : Pt α) (u : Pt α) : Nat := 0"},
+		{root, "root", "Element.isEqual", "isEqual_same", [][]string{{"e", "u"}}, "(e : Pt α) : Nat := 0"},
+		{root, "root", "Element.affine", "affine", nil, "(e : Pt α) : Pt α := e"},
+		{root, "root", "Secp256Polynomial", "secp256Polynomial", nil, "(x : α) : α := x"},
+		{root, "root", "SSWU", "sswu", nil, "(e : α) : Pt α := ⟨e, e, e⟩"},
+		{root, "root", "IsogenySecp256k13iso", "isogeny", nil, "(e : Pt α) : Pt α := e"},
 	}, "Curve", "import Secp.Gen.SqrtRatio", out+"/Curve.lean")
 	// the API methods of element.go, with the methods they call inlined on shared cells (one definition per aliasing pattern)
 	cellsAPIMode = true
 	genCellsTolerant([]cellJob{
-		{root, "root", "Element.Identity", "identity", nil},
-		{root, "root", "Element.IsIdentity", "isIdentity", nil},
-		{root, "root", "Element.Add", "add_e_v", [][]string{{"e"}, {"element"}}},
-		{root, "root", "Element.Add", "add_ev", [][]string{{"e", "element"}}},
-		{root, "root", "Element.Double", "double", nil},
-		{root, "root", "Element.Negate", "negate", nil},
-		{root, "root", "Element.Subtract", "subtract_e_v", [][]string{{"e"}, {"element"}}},
-		{root, "root", "Element.Subtract", "subtract_ev", [][]string{{"e", "element"}}},
-		{root, "root", "Element.Equal", "equal_e_v", [][]string{{"e"}, {"element"}}},
-		{root, "root", "Element.Equal", "equal_ev", [][]string{{"e", "element"}}},
-		{root, "root", "Element.Set", "set", [][]string{{"e"}, {"element"}}},
-		{root, "root", "Element.Copy", "copy", nil},
+		{root, "root", "Element.Identity", "identity", nil, ""},
+		{root, "root", "Element.IsIdentity", "isIdentity", nil, ""},
+		{root, "root", "Element.Add", "add_e_v", [][]string{{"e"}, {"element"}}, ""},
+		{root, "root", "Element.Add", "add_ev", [][]string{{"e", "element"}}, ""},
+		{root, "root", "Element.Double", "double", nil, ""},
+		{root, "root", "Element.Negate", "negate", nil, ""},
+		{root, "root", "Element.Subtract", "subtract_e_v", [][]string{{"e"}, {"element"}}, ""},
+		{root, "root", "Element.Subtract", "subtract_ev", [][]string{{"e", "element"}}, ""},
+		{root, "root", "Element.Equal", "equal_e_v", [][]string{{"e"}, {"element"}}, ""},
+		{root, "root", "Element.Equal", "equal_ev", [][]string{{"e", "element"}}, ""},
+		{root, "root", "Element.Set", "set", [][]string{{"e"}, {"element"}}, ""},
+		{root, "root", "Element.Copy", "copy", nil, ""},
 	}, "GenElementAPI", "import Secp.FieldOps", out+"/ElementAPI.lean")
 	genLadder(root, out+"/Ladder.lean")
 	cellsAPIMode = false
